@@ -30,7 +30,7 @@ def gen(rng, tier):
                 g["alias"] = {v: t}
         elif g["valmode"] == "str" and not g.get("alias") and rng.chance(0.2):
             # variables that print alike (1 / "1"), or that are spelled like the stack symbols to_pda() invents
-            g["valmode"] = rng.pick(["pvar", "termname"])
+            g["valmode"] = rng.pick(["pvar", "termname", "tup", "binint"])
         return {"kind": "cfg", "g": g}
     return {"kind": "pda", "p": GP.gen_pda(rng, int_inputs=True)}
 
